@@ -64,6 +64,108 @@ pub(crate) mod verif_kani_seq {
         crc32c_sw
     }
 
+    // ---- CRC as an uninterpreted function with a ghost log ---------------------------------
+    // Every call appends its bytes to G_CAT and returns an ARBITRARY non-zero value. A harness
+    // then states (a) which bytes were hashed, in which order, as one chain per checksum
+    // (each call seeded with the previous result, chains start at seed 0) and (b) how the final
+    // value is used. This holds for any CRC function; with the chaining law
+    // crc(crc(s, a), b) == crc(s, a ++ b) (crc_sw_matches_reference, Verus induction) the chain
+    // value is CRC32C(concatenation).
+    pub const GCAP: usize = 192;
+    pub static mut G_CAT: [u8; GCAP] = [0; GCAP];
+    pub static mut G_CAT_N: usize = 0;
+    pub static mut G_CALLS: usize = 0;
+    pub static mut G_LAST: u32 = 0;
+    pub static mut G_CHAIN_OK: bool = true;
+    pub static mut G_CHAINS: usize = 0;
+    pub static mut G_CHAIN_START: [usize; 4] = [0; 4];
+    pub static mut G_CHAIN_RES: [u32; 4] = [0; 4];
+
+    pub(crate) fn ghost_reset() {
+        unsafe {
+            G_CAT_N = 0;
+            G_CALLS = 0;
+            G_LAST = 0;
+            G_CHAIN_OK = true;
+            G_CHAINS = 0;
+        }
+    }
+
+    pub(crate) fn ghost_crc(seed: u32, data: &[u8]) -> u32 {
+        unsafe {
+            if seed == 0 {
+                assert!(G_CHAINS < 4, "ghost crc: chain capacity");
+                G_CHAIN_START[G_CHAINS] = G_CAT_N;
+                G_CHAINS += 1;
+            } else if G_CALLS == 0 || seed != G_LAST {
+                G_CHAIN_OK = false;
+            }
+            let mut i = 0;
+            while i < data.len() {
+                assert!(G_CAT_N < GCAP, "ghost crc: byte capacity");
+                G_CAT[G_CAT_N] = data[i];
+                G_CAT_N += 1;
+                i += 1;
+            }
+            let r: u32 = kani::any();
+            kani::assume(r != 0);
+            G_LAST = r;
+            G_CHAIN_RES[G_CHAINS - 1] = r;
+            G_CALLS += 1;
+            r
+        }
+    }
+
+    pub(crate) fn stub_crc32c_impl_ghost() -> Crc32c {
+        ghost_crc
+    }
+
+    /// bytes hashed by chain k are exactly `want`
+    pub(crate) fn ghost_chain_is(k: usize, want: &[u8]) -> bool {
+        unsafe {
+            if !G_CHAIN_OK || k >= G_CHAINS {
+                return false;
+            }
+            let start = G_CHAIN_START[k];
+            let end = if k + 1 < G_CHAINS { G_CHAIN_START[k + 1] } else { G_CAT_N };
+            if end - start != want.len() {
+                return false;
+            }
+            let mut i = 0;
+            while i < want.len() {
+                if G_CAT[start + i] != want[i] {
+                    return false;
+                }
+                i += 1;
+            }
+            true
+        }
+    }
+
+    pub(crate) fn ghost_chain_result(k: usize) -> u32 {
+        unsafe { G_CHAIN_RES[k] }
+    }
+
+    pub(crate) fn ghost_chains() -> usize {
+        unsafe { G_CHAINS }
+    }
+
+    // A cheap deterministic stand-in (FNV-1a step) for round-trip harnesses that need the same
+    // bytes to hash to the same value twice. Instance proof only; labelled as such in the registry.
+    pub(crate) fn fnv_crc(seed: u32, data: &[u8]) -> u32 {
+        let mut h = seed ^ 0x811C_9DC5;
+        let mut i = 0;
+        while i < data.len() {
+            h = (h ^ data[i] as u32).wrapping_mul(0x0100_0193);
+            i += 1;
+        }
+        h
+    }
+
+    pub(crate) fn stub_crc32c_impl_fnv() -> Crc32c {
+        fnv_crc
+    }
+
     #[kani::proof]
     #[kani::unwind(9)]
     fn crc_table_is_crc32c() {
@@ -104,27 +206,29 @@ pub(crate) mod verif_kani_seq {
 
     #[kani::proof]
     #[kani::unwind(27)]
-    #[kani::stub(crc32c_impl, stub_crc32c_impl)]
+    #[kani::stub(crc32c_impl, stub_crc32c_impl_ghost)]
     fn seq_token_spec() {
         let sector: u64 = kani::any();
         let header: [u8; 17] = kani::any();
         let mut cat = [0u8; 25];
         cat[..8].copy_from_slice(&sector.to_le_bytes());
         cat[8..].copy_from_slice(&header);
+        ghost_reset();
         let t = seq_token(sector, &header);
-        // CRC32C as computed by crc32c_sw (== the bitwise definition: crc_sw_matches_reference + Verus induction)
-        assert!(t == fold_ref(crc32c_sw(0, &cat)), "seq_token = fold(CRC32C(le64(sector) ++ header))");
+        assert!(ghost_chains() == 1 && ghost_chain_is(0, &cat), "hashes exactly le64(sector) ++ header, as one chain");
+        assert!(t == fold_ref(ghost_chain_result(0)), "token = fold of that CRC");
         assert!(t != 0);
     }
 
     #[kani::proof]
     #[kani::unwind(24)]
-    #[kani::stub(crc32c_impl, stub_crc32c_impl)]
+    #[kani::stub(crc32c_impl, stub_crc32c_impl_ghost)]
     fn record_seq_token_spec() {
         let sector: u64 = kani::any();
         let data: [u8; 12] = kani::any();
         let n: usize = kani::any();
         kani::assume(n <= 12);
+        ghost_reset();
         let t = record_seq_token(sector, &data[..n]);
         // spec: CRC over le64(sector) ++ data with bytes 2..4 read as zero (when present)
         let mut cat = [0u8; 20];
@@ -134,8 +238,8 @@ pub(crate) mod verif_kani_seq {
             cat[8 + i] = if n >= 4 && (i == 2 || i == 3) { 0 } else { data[i] };
             i += 1;
         }
-        assert!(t == fold_ref(crc32c_ref(0, &cat[..8 + n])), "record token = fold(CRC32C(le64(sector) ++ extent with the token field zeroed))");
-        assert!(t != 0);
+        assert!(ghost_chains() == 1 && ghost_chain_is(0, &cat[..8 + n]), "hashes le64(sector) ++ extent with the token field zeroed (short inputs whole)");
+        assert!(t == fold_ref(ghost_chain_result(0)) && t != 0);
         kani::cover!(n < 4);
         kani::cover!(n == 12);
     }
@@ -184,8 +288,8 @@ pub(crate) mod verif_kani_seq {
     }
 
     #[kani::proof]
-    #[kani::unwind(50)]
-    #[kani::stub(crc32c_impl, stub_crc32c_impl)]
+    #[kani::unwind(42)]
+    #[kani::stub(crc32c_impl, stub_crc32c_impl_ghost)]
     #[kani::stub(parking_lot::RawRwLock::lock_shared_slow, pl_lock_shared_slow)]
     #[kani::stub(parking_lot::RawRwLock::lock_exclusive_slow, pl_lock_exclusive_slow)]
     #[kani::stub(parking_lot::RawRwLock::unlock_shared_slow, pl_unlock_shared_slow)]
@@ -196,7 +300,7 @@ pub(crate) mod verif_kani_seq {
         let sector: u64 = kani::any();
         let mut data: [u8; 32] = kani::any();
         let before = data;
-        let expect = record_seq_token(sector, &before);
+        ghost_reset();
         stamp_seq_token(&mut data, sector, &FormatV2);
         let klen = u16::from_le_bytes([before[4], before[5]]) as usize;
         let stamped = klen >= 1 && 30 + klen <= 32;
@@ -204,11 +308,16 @@ pub(crate) mod verif_kani_seq {
         kani::assume(i < 32 && i != 2 && i != 3);
         assert!(data[i] == before[i], "only the token field changes");
         if stamped {
+            let mut cat = [0u8; 40];
+            cat[..8].copy_from_slice(&sector.to_le_bytes());
+            cat[8..].copy_from_slice(&before);
+            cat[10] = 0;
+            cat[11] = 0;
+            assert!(ghost_chains() == 1 && ghost_chain_is(0, &cat), "token hashes le64(sector) ++ whole extent with the token field read as zero");
             let t = u16::from_le_bytes([data[2], data[3]]);
-            assert!(t == expect, "token is computed over the extent (token field read as zero: record_seq_token_spec), so the stamped extent re-verifies");
-            assert!(t != 0);
+            assert!(t == fold_ref(ghost_chain_result(0)) && t != 0, "bytes 2..4 = le16(token); independent of the old token bytes, so stamping is idempotent");
         } else {
-            assert!(data[2] == before[2] && data[3] == before[3], "no stamp without a well-formed header");
+            assert!(data[2] == before[2] && data[3] == before[3] && ghost_chains() == 0, "no stamp without a well-formed header");
         }
         kani::cover!(stamped);
         kani::cover!(!stamped);
